@@ -22,7 +22,8 @@ type ChildParams struct {
 // NewChild create new instance of child scope
 func NewChild(parent app.Scope, params ChildParams) app.Scope {
 	var sid string
-	parent.AddTasks(1)
+	// a parent that is already done refuses the registration: such a child must not sign off later
+	registered := parent.AddTasks(1) == nil
 	if params.ContextScope == nil {
 		params.ContextScope = parent.BaseContextScope()
 	}
@@ -43,8 +44,12 @@ func NewChild(parent app.Scope, params ChildParams) app.Scope {
 	if params.CID == "" {
 		params.CID = parent.CID()
 	}
+	registeredParent := parent
+	if !registered {
+		registeredParent = nil
+	}
 	return &Scope{
-		parent:       parent,
+		parent:       registeredParent,
 		sid:          sid,
 		cid:          params.CID,
 		ContextScope: params.ContextScope,
